@@ -385,28 +385,37 @@ def check_stale_reference(ctx, ci, f):
         return None
 
     def cond(test, st, branch):
+        """-> list of states compatible with `test` evaluating to `branch` (exact for and / or / not over the two atoms)"""
         p, closed_here, kind = st
-        if isinstance(test, ast.BoolOp) and isinstance(test.op, ast.And):
-            if branch:
-                for v in test.values:
-                    st = cond(v, st, True)
-                    if st is None:
-                        return None
-                return st
-            return st
+        if isinstance(test, ast.BoolOp):
+            is_and = isinstance(test.op, ast.And)
+            first, rest = test.values[0], test.values[1:]
+            rest_test = rest[0] if len(rest) == 1 else ast.BoolOp(op=test.op, values=rest)
+            if is_and == branch:
+                # (A and B) true  /  (A or B) false: both operands have the deciding value
+                out = []
+                for s1 in cond(first, st, branch):
+                    out += cond(rest_test, s1, branch)
+                return out
+            # (A and B) false: A false, or A true and B false;   (A or B) true: A true, or A false and B true
+            out = list(cond(first, st, branch))
+            for s1 in cond(first, st, not branch):
+                out += cond(rest_test, s1, branch)
+            return out
         if isinstance(test, ast.UnaryOp) and isinstance(test.op, ast.Not):
             return cond(test.operand, st, not branch)
         t = norm(test)
-        if t == 'self.partition':
-            return ('open' if branch else 'closed', closed_here, kind)
+        if t in ('self.partition', 'self.partition is not None'):
+            want = 'open' if branch else 'closed'
+            return [(want, closed_here, kind)] if p in (want, 'maybe-open') else []
         if t in ('self.partition is None',):
-            return ('closed' if branch else 'open', closed_here, kind)
-        if t in ('self.partition is not None',):
-            return ('open' if branch else 'closed', closed_here, kind)
+            want = 'closed' if branch else 'open'
+            return [(want, closed_here, kind)] if p in (want, 'maybe-open') else []
         ks = kinds_of(test)
         if ks is not None and ks & {'JoinStep', 'ApplyPredictorStep'}:
-            return (p, closed_here, 'partitionable' if branch else 'other')
-        return st
+            want = 'partitionable' if branch else 'other'
+            return [(p, closed_here, want)] if kind in (want, 'unknown') else []
+        return [st]
 
     def transfer(s, st):
         p, closed_here, kind = st
@@ -436,7 +445,7 @@ def check_stale_reference(ctx, ci, f):
         return frozenset(transfer(s, st) for st in S)
 
     def cond_set(test, S, branch):
-        out = frozenset(x for x in (cond(test, st, branch) for st in S) if x is not None)
+        out = frozenset(x for st in S for x in cond(test, st, branch))
         return out or None
     Flow(transfer_set, lambda a, b: a | b, cond_set).run(fn, frozenset([('maybe-open', False, 'unknown')]))
 
